@@ -31,6 +31,7 @@ import (
 	"log/syslog"
 	"os"
 	"runtime"
+	"sort"
 	"strings"
 
 	"github.com/danos/utils/tsort"
@@ -579,8 +580,15 @@ func (c *Compiler) checkIdentities() error {
 	}
 
 	// Process derived identities, building
-	// identity tree.
-	for name, ident := range ids {
+	// identity tree.  The identities derived from one base are listed in
+	// the order they are attached in: by name, not in the order of the map.
+	names := make([]string, 0, len(ids))
+	for name := range ids {
+		names = append(names, name)
+	}
+	sort.Strings(names)
+	for _, name := range names {
+		ident := ids[name]
 		for _, base := range ident.ChildrenByType(parse.NodeBase) {
 			mod, tIdent := c.getModuleAndReference(ident.Root(), base, parse.NodeIdentity)
 			tnm := mod.Name() + ":" + tIdent.Name()
